@@ -1,8 +1,8 @@
 (* Correspondence check for C18. The harness runs small concurrent programs on
    the real sync2.AtomicValue[int] and sync2.Pool[*item] (the Go runtime owns
    the schedule) and records, per goroutine and in program order, the calls it
-   made, what each returned and (AtomicValue) the ranks on a global clock at
-   which the call was invoked and at which it returned. The check is
+   made, what each returned and the ranks on a global clock at which the call
+   was invoked and at which it returned (AtomicValue and Pool alike). The check is
    outcome-set inclusion: [check_case] searches the schedules of the MODEL
    machine for one along which the model returns exactly the observed results
    AND whose real-time order contains the observed one (a call may start in
@@ -46,6 +46,9 @@ Inductive zpop :=
 | ZPutFresh
 | ZPutZero.
 
+(* one recorded Pool call: (call with observed result, (invocation rank, response rank)) *)
+Definition pcall := (zpop * (Z * Z))%type.
+
 (* one recorded AtomicValue call: ((call, observed result), (invocation rank, response rank)) *)
 Definition acall := (op Z * res Z * (Z * Z))%type.
 Definition c_op (x : acall) : op Z := fst (fst x).
@@ -55,7 +58,7 @@ Definition c_ret (x : acall) : Z := snd (snd x).
 
 Inductive case :=
 | CaseAtomic (single_outcome : bool) (threads : list (list acall))   (* per goroutine, in program order *)
-| CasePool (new : bool) (threads : list (list zpop)).
+| CasePool (new : bool) (threads : list (list pcall)).
 
 (* ---------------- AtomicValue ---------------- *)
 
@@ -233,7 +236,7 @@ Definition open_get (c : pconfig) (t : tid) (i : nat) (v : val) : option pconfig
   | Some th =>
     match p_pc th, p_prog th with
     | GIdle, PGet :: rest =>
-        Some (PConfig (p_new c) (remove_nth i (p_bag c))
+        Some (PConfig (p_new c) (p_poolnew c) (remove_nth i (p_bag c))
                       (set_pthread (p_threads c) t (PThread rest GIdle (p_held th ++ [v]) (p_fresh th) (p_got th ++ [v])))
                       (PERetGet t v SrcBag :: PETake t v :: PEInvGet t :: p_trace c))
     | _, _ => None
@@ -241,43 +244,55 @@ Definition open_get (c : pconfig) (t : tid) (i : nat) (v : val) : option pconfig
   | None => None
   end.
 
-Fixpoint psearch (fuel : nat) (c : pconfig) (obs : list (list zpop)) : bool :=
+(* real-time order, as for AtomicValue: goroutine t may start a call invoked at rank [inv] only when the
+   first call of every other goroutine that has not yet run in the model has a response rank above [inv] *)
+Definition prt_ok (t : tid) (inv : Z) (obs : list (list pcall)) : bool :=
+  forallb (fun t' => if t' =? t then true else
+                     match nth t' obs [] with [] => true | x :: _ => Z.ltb inv (snd (snd x)) end)
+          (seq 0 (length obs)).
+
+(* call level (a Pool call has one step with an effect on the shared state) *)
+Fixpoint psearch (fuel : nat) (c : pconfig) (obs : list (list pcall)) : bool :=
   match fuel with
   | O => false
   | S fuel' =>
-    if forallb (fun l => match l with [] => true | _ => false end) obs then true else
-    existsb (fun t =>
+    if all_done obs then true else
+    exists_lazy (fun t =>
       match nth t obs [] with
       | [] => false
-      | ZGet o :: rest =>
-        if negb (p_new c) && negb (val_eqb (zval o) Zero) then
-          match index_of (zval o) (p_bag c) with
-          | Some i => match open_get c t i (zval o) with
-                      | Some c' => psearch fuel' c' (set_nth_list obs t rest)
-                      | None => false
-                      end
+      | (o, (inv, _)) :: rest =>
+        if negb (prt_ok t inv obs) then false else
+        match o with
+        | ZGet o =>
+          if negb (p_new c) && negb (val_eqb (zval o) Zero) then
+            match index_of (zval o) (p_bag c) with
+            | Some i => match open_get c t i (zval o) with
+                        | Some c' => psearch fuel' c' (set_nth_list obs t rest)
+                        | None => false
+                        end
+            | None => false
+            end
+          else
+          (* the pool hands out the observed item if the bag has it, else it misses *)
+          let ch := match index_of (zval o) (p_bag c) with Some i => Take i | None => Miss end in
+          match pfinish 6 c t ch with
+          | Some c' => match last_got c' t with
+                       | Some v => if val_eqb v (zval o) then psearch fuel' c' (set_nth_list obs t rest) else false
+                       | None => false
+                       end
           | None => false
           end
-        else
-        (* the pool hands out the observed item if the bag has it, else it misses *)
-        let ch := match index_of (zval o) (p_bag c) with Some i => Take i | None => Miss end in
-        match pfinish 6 c t ch with
-        | Some c' => match last_got c' t with
-                     | Some v => val_eqb v (zval o) && psearch fuel' c' (set_nth_list obs t rest)
-                     | None => false
-                     end
-        | None => false
-        end
-      | _ :: rest =>
-        match pfinish 6 c t Miss with
-        | Some c' => psearch fuel' c' (set_nth_list obs t rest)
-        | None => false
+        | _ =>
+          match pfinish 6 c t Miss with
+          | Some c' => psearch fuel' c' (set_nth_list obs t rest)
+          | None => false
+          end
         end
       end) (seq 0 (length obs))
   end.
 
-Definition check_pool (new : bool) (ths : list (list zpop)) : bool :=
-  psearch (S (length (concat ths))) (pinit new (map (map zpop_op) ths)) ths.
+Definition check_pool (new : bool) (ths : list (list pcall)) : bool :=
+  psearch (S (length (concat ths))) (pinit new (map (map (fun x => zpop_op (fst x))) ths)) ths.
 
 Definition check_case (c : case) : bool :=
   match c with
